@@ -25,8 +25,10 @@ Implementation-side oracles (no model; the theorems' conclusions evaluated on th
       every step; iteration count vs the alpha/(1-alpha) contraction bound for the non-IMEX runs.
 Tend is always a multiple of the block length (the controller deliberately solves past Tend otherwise).
 """
+import contextlib
 import logging
 import math
+import signal
 import warnings
 from fractions import Fraction as Fr
 
@@ -57,6 +59,24 @@ C_MODEL = 100.0           # Coq model iteration vs real controller: err <= C_MOD
 
 
 # ----------------------------------------------------------------------------- helpers
+
+class RunTimeout(Exception):
+    pass
+
+
+@contextlib.contextmanager
+def time_limit(seconds):
+    """The code under test may fail to terminate (e.g. a block whose time does not advance): bound every run."""
+    def handler(signum, frame):
+        raise RunTimeout('no termination within %d s' % seconds)
+    old = signal.signal(signal.SIGALRM, handler)
+    signal.setitimer(signal.ITIMER_REAL, seconds)
+    try:
+        yield
+    finally:
+        signal.setitimer(signal.ITIMER_REAL, 0)
+        signal.signal(signal.SIGALRM, old)
+
 
 def _imports():
     from pySDC.helpers import ParaDiagHelper as H
@@ -428,7 +448,8 @@ def check_model_iteration(ck, I):
                 P = c.MS[0].levels[0].prob
                 uinit = P.u_init
                 uinit[:] = u0c
-                c.run(u0=uinit, t0=0.0, Tend=N * float(dt))
+                with time_limit(60):
+                    c.run(u0=uinit, t0=0.0, Tend=N * float(dt))
                 ref = np.array([[complex(float(to_c(T[l][i])[0]), float(to_c(T[l][i])[1])) for i in range(n)] for l in range(N)])
                 live = np.array([np.asarray(c.MS[l].levels[0].u[1]).flatten() for l in range(N)])
                 # error relative to the largest magnitude involved (single entries may be close to zero)
@@ -566,7 +587,8 @@ def check_increment_system(ck, I):
             u0 = np.array([complex(ck.rng.uniform(-1, 1), ck.rng.uniform(-1, 1)) for _ in range(n)])
             uinit = P.u_init
             uinit[:] = u0.reshape(uinit.shape)
-            c.run(u0=uinit, t0=0.0, Tend=L * dt)
+            with time_limit(60):
+                c.run(u0=uinit, t0=0.0, Tend=L * dt)
             Q = np.asarray(lvl0.sweep.coll.Qmat[1:, 1:], dtype=float)
             nodes = lvl0.sweep.coll.nodes
             inc = np.array([[np.asarray(c.MS[l].levels[0].u[m + 1]).flatten() - u0 for m in range(M)] for l in range(L)])
@@ -632,7 +654,8 @@ def check_converged_runs(ck, I):
             Tend = L * dt * nblocks     # multiple of the block length
             with warnings.catch_warnings():
                 warnings.simplefilter('ignore')
-                uend, stats = c.run(u0=u0, t0=0.0, Tend=Tend)
+                with time_limit(120):
+                    uend, stats = c.run(u0=u0, t0=0.0, Tend=Tend)
             us = get_sorted(stats, type='u', sortby='time')
             niter = max(me[1] for me in get_sorted(stats, type='niter'))
             Q = np.asarray(lvl0.sweep.coll.Qmat[1:, 1:], dtype=float)
